@@ -325,9 +325,8 @@ class TCPClient:
                 raise
         try:
             stream = IOStream(socket_obj, max_buffer_size=max_buffer_size)
-        except OSError as e:
-            fu: Future[IOStream] = Future()
-            fu.set_exception(e)
-            return stream, fu
+        except OSError:
+            socket_obj.close()
+            raise
         else:
             return stream, stream.connect(addr)
